@@ -2,13 +2,91 @@
 package main
 
 import (
+	"context"
+
 	"github.com/safing/portbase/log"
 
 	"verif/slib"
 	"verif/vlib"
 )
 
+var sevNames = []string{"Trace", "Debug", "Info", "Warning", "Error", "Critical"}
+
+// emitExternal makes one log call of the given kind from this package (a call site outside package log: the logger
+// derives the caller's package, "c20", from this file's path).
+func emitExternal(kind, text string) bool {
+	plain := map[string]func(){
+		"Trace": func() { log.Trace(text) }, "Tracef": func() { log.Tracef("%s", text) },
+		"Debug": func() { log.Debug(text) }, "Debugf": func() { log.Debugf("%s", text) },
+		"Info": func() { log.Info(text) }, "Infof": func() { log.Infof("%s", text) },
+		"Warning": func() { log.Warning(text) }, "Warningf": func() { log.Warningf("%s", text) },
+		"Error": func() { log.Error(text) }, "Errorf": func() { log.Errorf("%s", text) },
+		"Critical": func() { log.Critical(text) }, "Criticalf": func() { log.Criticalf("%s", text) },
+	}
+	if f, ok := plain[kind]; ok {
+		f()
+		return true
+	}
+	var tr *log.ContextTracer
+	real := false
+	method := kind[2:]
+	if kind[:2] == "R." {
+		_, tr = log.AddTracer(context.Background())
+		if tr == nil {
+			return false
+		}
+		real = true
+	}
+	switch method {
+	case "Trace":
+		tr.Trace(text)
+	case "Tracef":
+		tr.Tracef("%s", text)
+	case "Debug":
+		tr.Debug(text)
+	case "Debugf":
+		tr.Debugf("%s", text)
+	case "Info":
+		tr.Info(text)
+	case "Infof":
+		tr.Infof("%s", text)
+	case "Warning":
+		tr.Warning(text)
+	case "Warningf":
+		tr.Warningf("%s", text)
+	case "Error":
+		tr.Error(text)
+	case "Errorf":
+		tr.Errorf("%s", text)
+	case "Critical":
+		tr.Critical(text)
+	case "Criticalf":
+		tr.Criticalf("%s", text)
+	default:
+		panic("unknown kind " + kind)
+	}
+	if real {
+		tr.Submit()
+	}
+	return true
+}
+
+// entryPoints returns one line per parallel entry point of the logging API (function, method on a nil tracer, single line of a real tracer).
+func entryPoints() []string {
+	var out []string
+	for _, prefix := range []string{"", "N.", "R."} {
+		for _, sv := range sevNames {
+			for _, f := range []string{"", "f"} {
+				k := prefix + sv + f
+				out = append(out, "X."+k+":"+k)
+			}
+		}
+	}
+	return out
+}
+
 func scenarios(c *vlib.Ctx) []*slib.Scn {
+	log.C20External = emitExternal
 	var out []*slib.Scn
 	add := func(fam string, p log.C20Params, bound int) {
 		out = append(out, &slib.Scn{Scenario: log.VerifC20(p), Family: "c20/" + fam, Bound: bound})
@@ -20,8 +98,8 @@ func scenarios(c *vlib.Ctx) []*slib.Scn {
 	b := vlib.Pick(c, 2, 3)
 	prodSets := [][][]string{
 		{{"i:a", "i:b"}, {"i:c", "i:d"}},
-		{{"i:x", "i:x", "i:y"}, {"w:z"}},                 // identical consecutive lines (merged) interleaved with another producer
-		{{"i:a", "d:b", "w:c"}, {"d:e", "e:f"}},         // severities around the threshold
+		{{"i:x", "i:x", "i:y"}, {"w:z"}},               // identical consecutive lines (merged) interleaved with another producer
+		{{"i:a", "d:b", "w:c"}, {"d:e", "e:f"}},        // severities around the threshold
 		{{"i:a", "i:b", "i:c"}, {"i:d", "i:e", "i:f"}}, // more lines than the (shrunk) buffer holds
 	}
 	for _, sched := range []string{"free", "external"} {
@@ -62,6 +140,16 @@ func scenarios(c *vlib.Ctx) []*slib.Scn {
 		// Start inside the explored window: the root starts the logger, logs and shuts down at once (the writer may not have run yet)
 		add("start-log-shutdown", log.C20Params{Producers: [][]string{{"i:a", "i:b", "i:c"}}, Sched: sched, Level: "i", Buf: 4, Shutdown: 3, Inline: true}, b)
 		add("start-log-shutdown", log.C20Params{Producers: [][]string{{"w:a"}}, Sched: sched, Level: "i", Buf: 0, Shutdown: 1, Inline: true}, b)
+		// every parallel entry point of the API, called from another package, at every global level and with a package level
+		// above / below the global one: emitted iff enabled, with its own severity
+		for _, lvl := range []string{"t", "d", "i", "w", "e", "c"} {
+			add("entry-points", log.C20Params{Producers: [][]string{entryPoints()}, Sched: sched, Triggers: 1, Level: lvl, Buf: 0, Shutdown: -1}, 0)
+		}
+		for _, lv := range [][2]string{{"e", "w"}, {"i", "c"}, {"c", "t"}, {"w", "d"}} {
+			add("entry-points", log.C20Params{Producers: [][]string{entryPoints()}, Sched: sched, Triggers: 1, Level: lv[0], PkgInit: lv[1], PkgName: "c20", Buf: 0, Shutdown: -1}, 0)
+		}
+		// a slow output and a backlog at Shutdown: flushing takes longer than the writer's 10 ms idle timeout
+		add("slow-output", log.C20Params{Producers: [][]string{{"i:a", "i:b", "i:c", "i:d", "i:e", "i:f"}}, Sched: sched, Triggers: 0, Level: "i", Buf: 0, Shutdown: 6, Slow: 4}, b)
 		// context tracer submissions
 		add("tracer", log.C20Params{Producers: [][]string{{"T:s1", "i:a"}, {"i:b", "T:s2"}}, Sched: sched, Triggers: 1, Level: "t", Buf: 2, Shutdown: -1}, b)
 		add("tracer", log.C20Params{Producers: [][]string{{"T:s1", "T:s2", "T:s3"}}, Sched: sched, Triggers: 1, Level: "t", Buf: 2, Shutdown: 2}, b)
@@ -83,7 +171,7 @@ func scenarios(c *vlib.Ctx) []*slib.Scn {
 func main() {
 	vlib.Main("C20", "model_checking", func(c *vlib.Ctx) {
 		c.Rule("stateless exploration of all interleavings within a deviation bound of the real log package (source-instrumented: buffer channel, wake-up flag, forced emptying, writer select choices, 10 ms back-off timers on the virtual clock): " +
-			"1-2 producers x 1-3 lines (distinct, identical consecutive, below/at/above the level, tracer submissions) x {free-running, externally triggered writer} x concurrent level / package-level changes (incl. a package level that is dropped again) x Shutdown at every position, plus Start-log-Shutdown in one go; buffer shrunk to 2 slots, plus the real 1024-slot buffer with 1030 lines; both default schedulers; " +
+			"1-2 producers x 1-3 lines (distinct, identical consecutive, below/at/above the level, tracer submissions) x {free-running, externally triggered writer} x concurrent level / package-level changes (incl. a package level that is dropped again) x Shutdown at every position, plus Start-log-Shutdown in one go, all 36 parallel entry points (functions, methods on a nil tracer, single lines of a real tracer) called from another package at every global level and with package levels, and a slow output with a backlog at Shutdown; buffer shrunk to 2 slots, plus the real 1024-slot buffer with 1030 lines; both default schedulers; " +
 			"distinct_nontrivial = distinct observation traces (order of deliveries and of Shutdown) per scenario")
 		c.Assume("sequential consistency; a line logged concurrently with a level change, or whose call had not returned when Shutdown was requested, may or may not be emitted")
 		slib.Run(c, scenarios(c), slib.Opts{})
